@@ -625,7 +625,7 @@ def gen_reject_cases(rng):
 
 def gen_cases(tier, rng):
     """yields (name, par, array, route, kind, klass)"""
-    nrep = 2 if tier == "quick" else 10
+    nrep = 2 if tier == "quick" else 4      # thorough: 4 repetitions over the larger shape list ~ 11 CPU-min (10 repetitions were 28 CPU-min, over the budget)
     shapes_q = [(1,), (2,), (3,), (5,), (8,), (1, 1), (4, 1), (1, 3), (3, 2), (5, 3)]
     shapes_t = shapes_q + [(4,), (6,), (7,), (12,), (2, 2), (6, 4), (9, 2), (2, 5)]
     mshapes_q = [(1, 1), (2, 2), (3, 2), (2, 3), (4, 4), (1, 3)]
